@@ -19,6 +19,7 @@ import (
 	"github.com/trustbloc/sidetree-core-go/pkg/versions/1_0/operationparser"
 	"github.com/trustbloc/sidetree-core-go/pkg/versions/1_0/txnprovider"
 
+	"verifsim/refmodel"
 	"verifsim/simenv"
 	"verifsim/simkit"
 	"verifsim/workload"
@@ -763,7 +764,7 @@ func (w *wWorld) onAnchor(t *txn.SidetreeTxn, refs []*operation.Reference) {
 		until := op.Until
 		if op.From != 0 && until == 0 {
 			v, _ := w.proto.Get(op.Version)
-			until = op.From + int64(v.Protocol().MaxOperationTimeDelta)
+			until = refmodel.SatAdd(op.From, refmodel.DeltaOf(v.Protocol().MaxOperationTimeDelta))
 		}
 
 		expired := (op.From != 0 || op.Until != 0) && until < c.time
